@@ -22,7 +22,7 @@ for i in range(1, 28):
 
 claim("C05",
       "SSA path/event dataflow (must/may sets + {0,1,>=2} counter domain) over the waiter's life cycle; channel ownership scan; lock facts",
-      "Static necessary conditions of exactly-once answering, decided on every path of every function a batch's done channel travels through (IngestRows/Flush, ingestWorker, processIngestRequest, flushBufferedData, triggerFlush, flushWorker, handleFlush, sendToChannelsWithContext, Stop): accept⇒enqueued, dequeued⇒handled, answer-or-park count = 1 at every return, parked⇒forwarded whole, queued-or-answered count = 1, drains before worker exit, no send on the ingest queue outside the stopped-checked read-lock window, Stop's nil return only with both workers in existence. Not a proof of the behavioural property: liveness and interleavings are not decided.",
+      "Static necessary conditions of exactly-once answering, decided on every path of every function a batch's done channel travels through (IngestRows/Flush, ingestWorker, processIngestRequest, flushBufferedData, triggerFlush, flushWorker, handleFlush, sendToChannelsWithContext, Stop): accept⇒enqueued, dequeued⇒handled, answer-or-park count = 1 at every return, parked⇒forwarded whole and never through an array the actor's live list still shares (R4), queued-or-answered count = 1, drains before worker exit, no send on the ingest queue outside the stopped-checked read-lock window, Stop's nil return only with both workers in existence. Not a proof of the behavioural property: liveness and interleavings are not decided.",
       "Trusted: go/types + go/ssa (x/tools v0.50.0) and the rule tables; panics ignored; function values in fields assumed to be the ones assigned in NewBloomSearchEngine.")
 
 def main():
